@@ -820,6 +820,54 @@ fn main() {
                 threads.insert(tid, h);
                 "ok".into()
             }
+            "spawn_rmw" => {
+                // spawn_rmw <tid> <ks> <key> <n> [yield]: n read-modify-write transactions (counter += 1) on a transactional database
+                let tid = a[0].to_string();
+                let key = unhex(a[2]);
+                let n: u64 = a[3].parse().expect("n");
+                let do_yield = a.get(4).is_some();
+                fn parse(v: Option<fjall::UserValue>) -> u64 {
+                    v.map(|b| { let mut x = [0u8; 8]; x.copy_from_slice(&b[..8]); u64::from_be_bytes(x) }).unwrap_or(0)
+                }
+                let h = match (w.db.as_ref().expect("db"), w.ks.get(a[1])) {
+                    (Db::Single(d), Some(Ks::Single(k))) => {
+                        let (d, k) = (d.clone(), k.clone());
+                        std::thread::spawn(move || {
+                            for _ in 0..n {
+                                let mut t = d.write_tx();
+                                let cur = match t.get(&k, &key) { Ok(v) => parse(v), Err(e) => return format!("err:{}", errname(&e)) };
+                                if do_yield { std::thread::yield_now(); }
+                                t.insert(&k, key.clone(), (cur + 1).to_be_bytes());
+                                if let Err(e) = t.commit() { return format!("err:{}", errname(&e)); }
+                            }
+                            "ok".to_string()
+                        })
+                    }
+                    (Db::Opt(d), Some(Ks::Opt(k))) => {
+                        let (d, k) = (d.clone(), k.clone());
+                        std::thread::spawn(move || {
+                            let mut conflicts = 0u64;
+                            for _ in 0..n {
+                                loop {
+                                    let mut t = match d.write_tx() { Ok(t) => t, Err(e) => return format!("err:{}", errname(&e)) };
+                                    let cur = match t.get(&k, &key) { Ok(v) => parse(v), Err(e) => return format!("err:{}", errname(&e)) };
+                                    if do_yield { std::thread::yield_now(); }
+                                    t.insert(&k, key.clone(), (cur + 1).to_be_bytes());
+                                    match t.commit() {
+                                        Ok(Ok(())) => break,
+                                        Ok(Err(_)) => { conflicts += 1; continue }
+                                        Err(e) => return format!("err:{}", errname(&e)),
+                                    }
+                                }
+                            }
+                            format!("ok conflicts={conflicts}")
+                        })
+                    }
+                    _ => { println!("R {} spawn_rmw => err:NotTransactional", ln + 1); continue }
+                };
+                threads.insert(tid, h);
+                "ok".into()
+            }
             "join_timeout" => {
                 // join_timeout <tid> <ms>: result if the thread finished within <ms>, else "pending" (thread stays registered)
                 let ms: u64 = a.get(1).map(|x| x.parse().expect("ms")).unwrap_or(300);
